@@ -30,6 +30,10 @@ func isStatefulPool(s poolSite) bool {
 
 // putResetRule: every field of a pooled struct is in a state-independent
 // (reset) state at the Put, or is reset by every Get wrapper of that pool.
+// putResetScratch: fields ("pkg.Type.field") whose previous content no code can observe (see c08Scratch); they need
+// no reset on the way into the pool.
+var putResetScratch = map[string]string{}
+
 func putResetRule(c *Ctx, p *core.Prog, keep poolFilter, rule string, control bool) (structPuts int, fired map[string]bool) {
 	r := c.R
 	fired = map[string]bool{}
@@ -119,6 +123,8 @@ func putResetRule(c *Ctx, p *core.Prog, keep poolFilter, rule string, control bo
 					continue
 				}
 				switch {
+				case putResetScratch[tn+"."+f] != "":
+					r.OK(rule, key, p.Pos(s.call.Pos()), putResetScratch[tn+"."+f])
 				case covered(facts, s.typ, f):
 					r.OK(rule, key, p.Pos(s.call.Pos()), "reset on every path to the Put")
 				case covered(gfacts, s.typ, f):
